@@ -1,5 +1,7 @@
 /-
   Impl model of `yash-env/src/job.rs` (`JobList`) and `yash-env/src/job/id.rs` (`JobId::find`).
+  The built-ins working on the table, job-ID parsing, the report format and the operation type
+  `Op` / `step` are in `Builtins.lean`.
 
   Import-free and executable.  Data layout follows the Rust code:
   * `Slab<Job>` is `entries : List (Option Job)` plus the LIFO free list of the `slab` crate
@@ -36,6 +38,8 @@ structure Job where
   changed : Bool := true
   owned : Bool := true
   name : List Char := []
+  /-- `job_controlled` -/
+  jc : Bool := false
   deriving DecidableEq, Repr, Inhabited
 
 def Job.isSuspended (j : Job) : Bool := j.state.isStopped
@@ -274,34 +278,5 @@ def JobId.find (id : JobId) (s : JobList) : Except FindErr Nat :=
   | .number n => match gets s.entries (n - 1) with | some _ => .ok (n - 1) | none => .error .notFound
   | .prefix_ p => findOne s.entries (fun j => isPrefixOfL p j.name)
   | .substring p => findOne s.entries (fun j => containsL j.name p)
-
-/-! ### Operations as data, for histories -/
-
-inductive Op where
-  | insert (pid : Nat) (st : PState)
-  | update (pid : Nat) (st : PState)
-  | setCurrent (i : Nat)
-  | remove (i : Nat)
-  | removeIfDone (report : Bool)      -- remove_if(|_, j| !j.state.is_alive()), optionally state_reported
-  | removeIfChanged                   -- remove_if(|_, j| j.state_changed && !alive) after reporting (jobs built-in style)
-  | report
-  | expect (i : Nat) (st : Option PState)
-  | disown
-  | setAsync (pid : Nat)
-  deriving Repr
-
-def step (s : JobList) : Op → JobList
-  | .insert pid st => (s.insert { pid := pid, state := st }).2
-  | .update pid st => (s.updateStatus pid st).2
-  | .setCurrent i => match s.setCurrentJob i with | .ok s' => s' | .error _ => s
-  | .remove i => (s.remove i).2
-  | .removeIfDone r => (s.removeIf (fun _ j => !j.state.isAlive) r).2
-  | .removeIfChanged => (s.removeIf (fun _ j => j.changed && !j.state.isAlive) false).2
-  | .report => s.reportAll
-  | .expect i st => s.expect i st
-  | .disown => s.disownAll
-  | .setAsync pid => s.setLastAsync pid
-
-def run (s : JobList) (ops : List Op) : JobList := ops.foldl step s
 
 end YashModel.Job
